@@ -94,11 +94,15 @@ func rulesC04(e *Engine, r *Report) {
 	}
 
 	// ---------------------------------------------------------------- R04.4
-	r.Rule("R04.4", "logged before moved: in the deliverer ReceiveLogger.Received(file) precedes fileutil.Move on every path; state finalized is set only on the err == nil edge of that Move")
+	r.Rule("R04.4", "logged before moved: in the deliverer ReceiveLogger.Received(file) - in this attempt or, shown by the `logged` stamp, in an earlier one - precedes fileutil.Move on every path; state finalized is set only on the err == nil edge of that Move")
 	for _, m := range e.SitesOf(pat("fileutil.Move"), e.FuncsIn("stage")) {
 		fn := m.Fn
 		file := "p1"
-		cls := labeler(I("invoke(sts.ReceiveLogger.Received)(p0.logger, "+file+")", "logged"))
+		ls := []L{I("invoke(sts.ReceiveLogger.Received)(p0.logger, "+file+")", "logged")}
+		if e.loggedStampHonest(r, "R04.4") {
+			ls = append(ls, C("!call(time.(Time).IsZero)("+file+".logged)", "logged"))
+		}
+		cls := labeler(ls...)
 		e.Guarded(r, "R04.4", e.ShortName(fn)+": fileutil.Move after log record", fn, only(m.Instr.(ssa.Instruction)), cls,
 			func(l LabelSet) bool { return l.Has("logged") }, "ReceiveLogger.Received(file) already passed")
 		mv := e.Canon(m.Instr.Value())
